@@ -125,6 +125,9 @@ type vtOp struct {
 	// that is used long after it was established); ReadLagMs: the dialer starts reading this late
 	HoldMs    int `json:"hold_ms,omitempty"`
 	ReadLagMs int `json:"read_lag_ms,omitempty"`
+	// AccFirst: the accepting end speaks first, as soon as Accept has returned (the dialer reads
+	// before it writes) - net/rpc's own use always has the dialer speak first
+	AccFirst bool `json:"acc_first,omitempty"`
 }
 
 type vtCase struct {
@@ -161,6 +164,20 @@ func payload(id uint32, n int, dir byte) []byte {
 // the acceptor checks them and answers its token and Down bytes.
 func exchangeDialer(conn net.Conn, op vtOp) error {
 	conn.SetDeadline(time.Now().Add(60 * time.Second))
+	if op.AccFirst {
+		want := append(token(op.ID, 2), payload(op.ID, op.Down, 'd')...)
+		got := make([]byte, len(want))
+		if _, err := io.ReadFull(conn, got); err != nil {
+			return fmt.Errorf("dialer read (acceptor speaks first): %w", err)
+		}
+		if !bytes.Equal(got, want) {
+			return fmt.Errorf("ROUTING: the connection dialled for id %d did not deliver the acceptor's bytes complete and in order (acceptor speaks first; got %q..., want %q...)", op.ID, clip(got), clip(want))
+		}
+		if _, err := conn.Write(append(token(op.ID, 1), payload(op.ID, op.Up, 'u')...)); err != nil {
+			return fmt.Errorf("dialer write: %w", err)
+		}
+		return nil
+	}
 	if _, err := conn.Write(append(token(op.ID, 1), payload(op.ID, op.Up, 'u')...)); err != nil {
 		return fmt.Errorf("dialer write: %w", err)
 	}
@@ -180,6 +197,11 @@ func exchangeDialer(conn net.Conn, op vtOp) error {
 
 func exchangeAcceptor(conn net.Conn, op vtOp) error {
 	conn.SetReadDeadline(time.Now().Add(60 * time.Second)) // reads only: a write deadline is the library's business
+	if op.AccFirst {
+		if _, err := conn.Write(append(token(op.ID, 2), payload(op.ID, op.Down, 'd')...)); err != nil {
+			return fmt.Errorf("acceptor write: %w", err)
+		}
+	}
 	want := append(token(op.ID, 1), payload(op.ID, op.Up, 'u')...)
 	got := make([]byte, len(want))
 	if _, err := io.ReadFull(conn, got); err != nil {
@@ -187,6 +209,9 @@ func exchangeAcceptor(conn net.Conn, op vtOp) error {
 	}
 	if !bytes.Equal(got, want) {
 		return fmt.Errorf("ROUTING: the connection accepted for id %d carries bytes of id %d", op.ID, binary.LittleEndian.Uint32(got))
+	}
+	if op.AccFirst {
+		return nil
 	}
 	if op.HoldMs > 0 {
 		time.Sleep(time.Duration(op.HoldMs) * time.Millisecond)
